@@ -113,13 +113,14 @@ samples, switch-ins, switch-outs; a `sched_switch` sample counts as switch-out o
 mode). The theorems below hold for every such list of records, any length, any interval > 0, in both modes
 with an off-CPU indicator.
 
-**What is missing for the record-history form** (hence `_partial`): that in `Conv.run cfg rs` the thread object
-bound to (pid, tid) between two records of the same incarnation is carried unchanged through the records of
-other threads and through FORK / COMM / MMAP2 records (the analogue of `C01_dedup_refinement`, which proves it
-for the field `lastTs`; `context_switch_data` and `off_cpu_stack` live in the same `Thread` object, are reset
-by `Thread::new` at the same places and are written nowhere else, but the invariant has not been generalised
-from `lastTs` to these fields). The record-history form is what the judge `ConvJudge.judgeCs` evaluates on
-samply's output for every generated case. -/
+**The record-history form** (no theorem of this file is `_partial` any more): that in `Conv.run cfg rs` the thread
+object bound to (pid, tid) between two records of the same incarnation is carried unchanged through the records of
+other threads and through FORK / COMM / MMAP2 records is the binding invariant `Conv.thread_of_run`
+(`Lemmas/ConvCsRun.lean`; the generalisation of `C01_dedup_refinement` from the field `lastTs` to
+`context_switch_data` and `off_cpu_stack`, which live in the same `Thread` object and are reset by `Thread::new` at
+the same places). It is stated below as `C12_conv_binding` and lifts the thread-level theorems to `C12_conv_cpu` /
+`C12_conv_offcpu` (section "Converter level: `Conv.run cfg rs`"). The record-history form is also what the judge
+`ConvJudge.judgeCs` evaluates on samply's output for every generated case. -/
 open Conv
 
 /-- `process_off_cpu_sample_group`: the samples made from a group of `count ≥ 1` units carry, together, weight
